@@ -15,6 +15,7 @@ def runner(sc):
     sim = vts.Sim(jitters=sc.get('jit', [1]))
     lat = sc.get('lat', [500])
     sim.latency = lambda c, src, dst: lat[c % len(lat)]
+    sim.eager_wake = bool(sc.get('eager_wake'))     # a thread woken by a put runs before the putting call goes on
     res = scen.Result()
     res.sc = sc
     res.results = []        # per op: ('ok', value) | ('exc', type, text)
@@ -87,11 +88,12 @@ def runner(sc):
                 if op.get('absent'):
                     sv.on_bus = True
                 # idle gap between operations (the blocking calls park this thread; emulate a sleep with a timed wait)
-                q = vts.FakeQueue()
-                try:
-                    q.get(True, op.get('gap', 0.3))
-                except Exception:
-                    pass
+                if op.get('gap', 0.3) > 0:       # gap 0: the application issues its next request back to back
+                    q = vts.FakeQueue()
+                    try:
+                        q.get(True, op.get('gap', 0.3))
+                    except Exception:
+                        pass
         sim.at_thread(1000, lambda: guarded(client), 'client')
         for inj in sc.get('inject', []):
             fr = (inj['id'], True, list(inj['data']), False, {})
